@@ -72,6 +72,28 @@ type c17level struct {
 	unamb                bool // no other level accepts this level\'s canonical prompt
 }
 
+// c17act is one action of the model's network on-X interpreter: a(cquire) level, c(ommand),
+// w(rite) input, r(eturn), e(rror: bad value), s(kip), p(anic).
+type c17act struct {
+	kind byte
+	arg  string
+}
+
+func c17parseActs(s string) []c17act {
+	if s == "." || s == "" {
+		return nil
+	}
+	var out []c17act
+	for _, a := range strings.Split(s, ",") {
+		act := c17act{kind: a[0]}
+		if len(a) > 1 {
+			act.arg = c17unhex(a[1:])
+		}
+		out = append(out, act)
+	}
+	return out
+}
+
 type c17step map[string]string // key -> canonical value (s<hex>, b0, …)
 
 type c17def struct {
@@ -88,8 +110,9 @@ type c17def struct {
 	class         map[string]int // level key -> prompt class index
 	classes       [][]string
 	checks        string
-	c04           string // "ok": platform_acquire_reaches_target covers the definition; "exempt:<tag>"
-	ambiguous     bool   // some class has more than one level
+	onx           map[string][2][]c17act // user default ("" = none) -> model actions of on-open / on-close
+	c04           string                 // "ok": platform_acquire_reaches_target covers the definition; "exempt:<tag>"
+	ambiguous     bool                   // some class has more than one level
 }
 
 func c17parseSteps(s string) []c17step {
@@ -801,7 +824,7 @@ type c17sessOut struct {
 	didAcquire                   bool
 }
 
-func c17runSession(d *c17def, cur, tgt string, auth bool, seg int) *c17sessOut {
+func c17runSession(d *c17def, cur, tgt string, auth bool, seg int, user string) *c17sessOut {
 	out := &c17sessOut{}
 	secret := ""
 	if auth {
@@ -828,6 +851,10 @@ func c17runSession(d *c17def, cur, tgt string, auth bool, seg int) *c17sessOut {
 		opts := append(c17baseOpts(dev.cli.Pipe), options.WithTimeoutOps(2*time.Second))
 		if auth {
 			opts = append(opts, options.WithAuthSecondary(secret))
+		}
+		if user != "" {
+			// a user option layered on top of the definition's own options
+			opts = append(opts, options.WithDefaultDesiredPriv(user))
 		}
 		var p *platform.Platform
 		var err error
@@ -920,31 +947,66 @@ type c17expLine struct {
 	class int
 }
 
-func (d *c17def) stepLines(steps []c17step) []c17expLine {
+func (d *c17def) stepLines(acts []c17act) []c17expLine {
 	cls := -1
 	var out []c17expLine
 	var pendingWrite string
-	for _, s := range steps {
-		op, _ := s.strVal("operation")
-		switch op {
-		case "acquire-priv":
-			t := d.dd
-			if v, ok := s.strVal("target"); ok {
-				t = v
-			}
-			if c, ok := d.class[t]; ok {
+	for _, a := range acts {
+		switch a.kind {
+		case 'a':
+			if c, ok := d.class[a.arg]; ok {
 				cls = c
 			}
-		case "driver.send-command":
-			cmd, _ := s.strVal("command")
-			out = append(out, c17expLine{pendingWrite + cmd, cls})
+		case 'c':
+			out = append(out, c17expLine{pendingWrite + a.arg, cls})
 			pendingWrite = ""
-		case "channel.write":
-			in, _ := s.strVal("input")
-			pendingWrite += in
-		case "channel.return":
+		case 'w':
+			pendingWrite += a.arg
+		case 'r':
 			out = append(out, c17expLine{pendingWrite, cls})
 			pendingWrite = ""
+		}
+	}
+	return out
+}
+
+// lastAcquire is the level the last acquire action of a list navigates to ("" = none).
+func lastAcquire(acts []c17act) string {
+	t := ""
+	for _, a := range acts {
+		if a.kind == 'a' {
+			t = a.arg
+		}
+	}
+	return t
+}
+
+func acquireCount(acts []c17act) []int {
+	var out []int
+	for i, a := range acts {
+		if a.kind == 'a' {
+			out = append(out, i)
+		}
+	}
+	return out
+}
+
+// payload is the non-empty lines of the non-acquire actions, in order.
+func payload(acts []c17act) []string {
+	var out []string
+	w := ""
+	for _, a := range acts {
+		switch a.kind {
+		case 'c':
+			out = append(out, w+a.arg)
+			w = ""
+		case 'w':
+			w += a.arg
+		case 'r':
+			if w != "" {
+				out = append(out, w)
+			}
+			w = ""
 		}
 	}
 	return out
@@ -973,18 +1035,28 @@ func (d *c17def) observe(ls []sim.LineEvent, exp []c17expLine) string {
 	return ""
 }
 
-func c17sessLine(d *c17def, cur, tgt string, auth bool, seg int) string {
-	return fmt.Sprintf("c17sess %s %s %s %s %d %d", d.file, map[bool]string{true: "-", false: d.variant}[d.variant == ""], cur, tgt,
-		map[bool]int{true: 1, false: 0}[auth], seg)
+func c17sessLine(d *c17def, cur, tgt string, auth bool, seg int, user string) string {
+	u := user
+	if u == "" {
+		u = "~"
+	}
+	return fmt.Sprintf("c17sess %s %s %s %s %d %d %s", d.file, map[bool]string{true: "-", false: d.variant}[d.variant == ""], cur, tgt,
+		map[bool]int{true: 1, false: 0}[auth], seg, u)
 }
 
-func c17session(c *ctx, d *c17def, cur, tgt string, auth bool, seg int, verbose bool) {
-	caseLine := c17sessLine(d, cur, tgt, auth, seg)
-	o := c17runSession(d, cur, tgt, auth, seg)
-	c17judge(c, d, cur, tgt, auth, o, caseLine, verbose)
+func c17session(c *ctx, d *c17def, cur, tgt string, auth bool, seg int, user string, verbose bool) {
+	caseLine := c17sessLine(d, cur, tgt, auth, seg, user)
+	o := c17runSession(d, cur, tgt, auth, seg, user)
+	c17judge(c, d, cur, tgt, auth, user, o, caseLine, verbose)
 }
 
-func c17judge(c *ctx, d *c17def, cur, tgt string, auth bool, o *c17sessOut, caseLine string, verbose bool) {
+func c17judge(c *ctx, d *c17def, cur, tgt string, auth bool, user string, o *c17sessOut, caseLine string, verbose bool) {
+	acts, okActs := d.onx[user]
+	if !okActs {
+		c.res.Fail("machinery", caseLine, "no model on-X actions for user default "+user, "driver-protocol")
+		return
+	}
+	openActs, closeActs := acts[0], acts[1]
 	// in the property's quantifier: a device can be built from the definition (every level has a
 	// canonical prompt), and it starts in the representative of a prompt class (indistinguishable
 	// levels count as one). A definition that fails one of the proved checks is still driven: the
@@ -1009,7 +1081,12 @@ func c17judge(c *ctx, d *c17def, cur, tgt string, auth bool, o *c17sessOut, case
 	hops := len(d.treePath(cur, tgt)) - 1
 	c.res.Count(fmt.Sprintf("session:hops=%d", hops))
 	c.res.Count("session:c04-link=" + d.c04)
-	c.res.Count("session:" + caseLine[strings.LastIndex(caseLine, " ")+1:] + "-byte-reads(0=whole)")
+	if user != "" {
+		c.res.Count("session:user-default-layered")
+	}
+	if f := strings.Fields(caseLine); len(f) >= 7 {
+		c.res.Count("session:" + f[6] + "-byte-reads(0=whole)")
+	}
 	if auth {
 		c.res.Count("session:secret")
 	}
@@ -1022,7 +1099,7 @@ func c17judge(c *ctx, d *c17def, cur, tgt string, auth bool, o *c17sessOut, case
 		return
 	}
 	fail := func(sig, f string, a ...any) {
-		c.res.Fail(kind, caseLine, fmt.Sprintf("%s start=%s target=%s secret=%v: ", d.label(), cur, tgt, auth)+fmt.Sprintf(f, a...)+
+		c.res.Fail(kind, caseLine, fmt.Sprintf("%s start=%s target=%s secret=%v user WithDefaultDesiredPriv=%q: ", d.label(), cur, tgt, auth, user)+fmt.Sprintf(f, a...)+
 			"\n device log: "+c17fmtLines(o.lines), sig+":"+d.label())
 	}
 	if o.panicMsg != "" {
@@ -1039,33 +1116,26 @@ func c17judge(c *ctx, d *c17def, cur, tgt string, auth bool, o *c17sessOut, case
 	}
 	opened := o.lines[:c17min(o.nOpen, len(o.lines))]
 	// on-open steps observed, in order, in the class their acquire-priv step names
-	if miss := d.observe(opened, d.stepLines(d.noo)); miss != "" {
+	if miss := d.observe(opened, d.stepLines(openActs)); miss != "" {
 		fail("on-open-not-observed", "on-open: %s", miss)
 	}
-	hasAcq := false
-	for _, s := range d.noo {
-		if op, _ := s.strVal("operation"); op == "acquire-priv" {
-			hasAcq = true
-		}
-	}
+	// the level the on-open list acquires: the step's target, else the driver's run-time default
+	// (the user's WithDefaultDesiredPriv when given) — model: onx_acquire_uses_runtime_default
+	want := lastAcquire(openActs)
+	hasAcq := want != ""
 	if hasAcq {
-		want := d.dd
-		for _, s := range d.noo {
-			if op, _ := s.strVal("operation"); op == "acquire-priv" {
-				want = d.dd
-				if v, ok := s.strVal("target"); ok {
-					want = v
-				}
-			}
-		}
 		if d.class[o.modeOpen] != d.class[want] {
 			fail("open-wrong-level", "after Open the device is in %s, on-open acquires %s", o.modeOpen, want)
 		} else if !d.ambiguous || (d.c04 == "ok" && d.byKey[cur].unamb) {
-			// platform_acquire_reaches_target (unambiguous start, any cache): exactly the tree path
-			// unambiguous prompts: the transition lines are exactly the tree path
+			// platform_acquire_reaches_target (unambiguous start, any cache): the device log of Open
+			// is exactly the tree path to that level followed by the payload of the other steps
 			exp := d.pathLines(cur, want, secret)
-			got := nonEmptyLines(opened)
-			if len(got) < len(exp) || strings.Join(got[:len(exp)], "\x00") != strings.Join(exp, "\x00") {
+			if len(openActs) > 0 && openActs[0].kind == 'a' && len(acquireCount(openActs)) == 1 {
+				exp = append(exp, payload(openActs)...)
+				if got := nonEmptyLines(opened); strings.Join(got, "\x00") != strings.Join(exp, "\x00") {
+					fail("open-wrong-log", "Open sent %q, expected the tree path and the on-open commands %q", got, exp)
+				}
+			} else if got := nonEmptyLines(opened); len(got) < len(exp) || strings.Join(got[:len(exp)], "\x00") != strings.Join(exp, "\x00") {
 				fail("open-wrong-path", "on-open acquire sent %q, tree path is %q", got, exp)
 			}
 		}
@@ -1093,8 +1163,20 @@ func c17judge(c *ctx, d *c17def, cur, tgt string, auth bool, o *c17sessOut, case
 		fail("close-error", "Close failed: %v", o.closeErr)
 	}
 	closed := o.lines[c17min(o.nAcq, len(o.lines)):]
-	if miss := d.observe(closed, d.stepLines(d.noc)); miss != "" {
+	if miss := d.observe(closed, d.stepLines(closeActs)); miss != "" {
 		fail("on-close-not-observed", "on-close: %s", miss)
+	}
+	if cw := lastAcquire(closeActs); cw != "" && o.closeErr == nil {
+		// (the level at the end of Close is judged where the on-close lines arrive — observe() above —
+		// because the written line itself, e.g. `exit`, may be a transition command of the device)
+		if (o.didAcquire && o.acqErr == nil || hasAcq) && (!d.ambiguous || d.c04 == "ok") &&
+			len(closeActs) > 0 && closeActs[0].kind == 'a' && len(acquireCount(closeActs)) == 1 {
+			// the cache is accurate: exactly the tree path from where the session stands, then the payload
+			exp := append(d.pathLines(o.modeAcq, cw, secret), payload(closeActs)...)
+			if got := nonEmptyLines(closed); strings.Join(got, "\x00") != strings.Join(exp, "\x00") {
+				fail("close-wrong-log", "Close sent %q, expected the tree path and the on-close lines %q", got, exp)
+			}
+		}
 	}
 	if o.closeCalls < 1 {
 		fail("transport-not-closed", "Close returned without closing the transport")
@@ -1581,6 +1663,37 @@ func c17loadDefs(c *ctx) (adv []string, defs []*c17def) {
 		}
 		defs = append(defs, d)
 	}
+	// the model's on-X actions per definition and user default
+	var olines []string
+	type oq struct {
+		d    *c17def
+		user string
+	}
+	var oqs []oq
+	for _, d := range defs {
+		d.onx = map[string][2][]c17act{}
+		users := []string{""}
+		for _, l := range d.levels {
+			users = append(users, l.key)
+		}
+		for _, u := range users {
+			h := "~"
+			if u != "" {
+				h = c17hex(u)
+			}
+			olines = append(olines, fmt.Sprintf("c17 onx %s %s %s", c17hex(d.file), c17hex(d.variant), h))
+			oqs = append(oqs, oq{d, u})
+		}
+	}
+	for i, a := range c.ask(olines) {
+		kv := map[string]string{}
+		for _, f := range strings.Split(a, " ") {
+			if j := strings.Index(f, "="); j > 0 {
+				kv[f[:j]] = f[j+1:]
+			}
+		}
+		oqs[i].d.onx[oqs[i].user] = [2][]c17act{c17parseActs(kv["open"]), c17parseActs(kv["close"])}
+	}
 	return adv, defs
 }
 
@@ -1608,10 +1721,14 @@ func runC17(c *ctx) {
 			if d := c17find(defs, f[1], f[2]); d != nil {
 				c17fields(c, d, true)
 			}
-		case len(f) == 7 && f[0] == "c17sess":
+		case (len(f) == 7 || len(f) == 8) && f[0] == "c17sess":
 			if d := c17find(defs, f[1], f[2]); d != nil {
 				seg, _ := strconv.Atoi(f[6])
-				c17session(c, d, f[3], f[4], f[5] == "1", seg, true)
+				user := ""
+				if len(f) == 8 && f[7] != "~" {
+					user = f[7]
+				}
+				c17session(c, d, f[3], f[4], f[5] == "1", seg, user, true)
 			}
 		case len(f) == 2 && f[0] == "c17graph":
 			sd, _ := strconv.ParseUint(f[1], 10, 64)
@@ -1639,6 +1756,7 @@ func runC17(c *ctx) {
 		d        *c17def
 		cur, tgt string
 		auth     bool
+		user     string // user WithDefaultDesiredPriv layered on top ("" = none)
 		out      *c17sessOut
 	}
 	var jobs []*job
@@ -1650,6 +1768,19 @@ func runC17(c *ctx) {
 			for _, b := range d.levels {
 				for _, auth := range []bool{true, false} {
 					jobs = append(jobs, &job{d: d, cur: a.key, tgt: b.key, auth: auth})
+				}
+			}
+		}
+		// user option layered on top: WithDefaultDesiredPriv(x) for every usable level x other than
+		// the definition's default; from every start level; the middle AcquirePriv goes to the
+		// definition's default, so that Close has to navigate back to x
+		for _, x := range d.levels {
+			if x.key == d.dd || !x.targetable {
+				continue
+			}
+			for _, a := range d.levels {
+				for _, auth := range []bool{true, false} {
+					jobs = append(jobs, &job{d: d, cur: a.key, tgt: d.dd, auth: auth, user: x.key})
 				}
 			}
 		}
@@ -1669,13 +1800,13 @@ func runC17(c *ctx) {
 			sem <- struct{}{}
 			go func(j *job) {
 				defer wg.Done()
-				j.out = c17runSession(j.d, j.cur, j.tgt, j.auth, seg)
+				j.out = c17runSession(j.d, j.cur, j.tgt, j.auth, seg, j.user)
 				<-sem
 			}(j)
 		}
 		wg.Wait()
 		for _, j := range jobs {
-			c17judge(c, j.d, j.cur, j.tgt, j.auth, j.out, c17sessLine(j.d, j.cur, j.tgt, j.auth, seg), false)
+			c17judge(c, j.d, j.cur, j.tgt, j.auth, j.user, j.out, c17sessLine(j.d, j.cur, j.tgt, j.auth, seg, j.user), false)
 		}
 	}
 	c.res.Exhaustive = true
